@@ -478,7 +478,7 @@ def repo_fingerprint():
         return "unknown"
 
 
-def run_check(pid, tier, keep=False, only=None):
+def run_check(pid, tier, keep=False, only=None, dev_group=None):
     from registry import PROPERTIES
 
     prop = PROPERTIES[pid]
@@ -502,11 +502,12 @@ def run_check(pid, tier, keep=False, only=None):
             if not ok:
                 inconclusive.append("audit %s: %s" % (audit, msg))
         jobs = []
-        for gname in prop["groups"]:
+        for gname in ([dev_group] if dev_group else prop["groups"]):
             from registry import GROUPS
             group = GROUPS[gname]
             hs = harness_list(group, tier)
-            hs = [(n, s) for n, s in hs if pid in s.get("props", [pid])]
+            if not dev_group:
+                hs = [(n, s) for n, s in hs if pid in s.get("props", [pid])]
             if only:
                 hs = [(n, s) for n, s in hs if n in only]
             if not hs:
@@ -703,6 +704,7 @@ def main(argv):
         tier = os.environ.get("VERIF_TIER", "quick")
         keep = False
         only = None
+        dev_group = None
         i = 3
         while i < len(argv):
             if argv[i] == "--tier":
@@ -714,9 +716,12 @@ def main(argv):
             elif argv[i] == "--only":
                 only = argv[i + 1].split(",")
                 i += 2
+            elif argv[i] == "--group":  # development: run every harness of one group
+                dev_group = argv[i + 1]
+                i += 2
             else:
                 i += 1
-        return run_check(pid, tier, keep, only)
+        return run_check(pid, tier, keep, only, dev_group)
     if argv[1] == "replay":
         print(open(argv[2]).read())
         return 0
